@@ -1676,11 +1676,19 @@ class OPCODE(AbstractOperation):
 
     P = (U16,)
 
-    def typecheck(self, *args, assembly_only=False, **kwargs):
-        messages = super().typecheck(*args, assembly_only=assembly_only, **kwargs)
+    def typecheck(self, symbol_table, *, assembly_only=False):
+        messages = super().typecheck(symbol_table, assembly_only=assembly_only)
+        if messages.errors:
+            # Wrong operand count or kind: there is no word to look at.
+            return messages
+
+        value = self.args[0]
+        if self.tokens[0].type == Token.SYMBOL:
+            # A constant (checked above): look up its value.
+            value = symbol_table[value]
 
         try:
-            disassemble(self.args[0], allow_unknown=assembly_only)
+            disassemble(value, allow_unknown=assembly_only)
         except HERAError:
             if not assembly_only:
                 messages.err("not a HERA instruction", self.tokens[0])
